@@ -1077,10 +1077,12 @@ pub fn check_step(cx: &StepCtx) -> Vec<Violation> {
                     let maxfee = floor_mul(amount, pre.fee);
                     if credited + maxfee < amount {
                         out.push(v("C05", "fee-above-max", format!("unbond {}: credited {} fee above {}", amount, credited, maxfee)));
+                        out.push(v("C07", "claim-below-amount-less-max-fee", format!("unbond {}: the claim recorded is {} — less than the amount sent less the largest peg fee {}", amount, credited, maxfee)));
                     }
                     if let Some(a) = pre.q {
                         if a[0] >= pre.thr && credited != amount {
                             out.push(v("C05", "fee-above-threshold", format!("unbond {} at rate {} ≥ threshold {} credited {}", amount, a[0], pre.thr, credited)));
+                            out.push(v("C07", "claim-ne-amount-without-fee", format!("unbond {} at rate {} ≥ threshold {}: the claim recorded is {}", amount, a[0], pre.thr, credited)));
                         }
                     }
                 }
@@ -1426,6 +1428,32 @@ pub fn check_step(cx: &StepCtx) -> Vec<Violation> {
                     } else if *d > 0 && held + d > ceil {
                         out.push(v("C12", "bond-plan-lifts-above-even-share", format!("{}: validator {} held {} and receives {}: above the even share {} of {} + {} over {} validators", kind, val, held, d, ceil, total, amount, n)));
                     }
+                }
+            }
+        }
+    }
+
+    // ---------------------------------------------------------------- C12: a removal / follow-up redelegation never lifts a validator above the even share
+    // (the redelegation plan levels the registered validators with the moved stake, the index update
+    // it triggers then levels them again with the re-bonded rewards: whoever received anything ends
+    // at most at the even share, rounded up, of what the registered validators hold afterwards)
+    if matches!(kind, "reg.redelegations" | "reg.remove") && ok && reg_wired(cx.chain_pre) {
+        let n = post.reg_stored.len() as u128;
+        if n > 0 {
+            let total: u128 = post.reg_stored.iter().map(|v| *post.deleg.get(v).unwrap_or(&0)).sum();
+            let ceil = (total + n - 1) / n;
+            let mut got: BTreeMap<Id, u128> = BTreeMap::new();
+            for e in cx.effects.iter() {
+                match e {
+                    Effect::Redelegate { dst, amt, .. } => *got.entry(*dst).or_insert(0) += amt,
+                    Effect::Delegate { v, amt } => *got.entry(*v).or_insert(0) += amt,
+                    _ => {}
+                }
+            }
+            for (val, g) in got.iter() {
+                let held = *post.deleg.get(val).unwrap_or(&0);
+                if *g > 0 && post.reg_stored.contains(val) && held > ceil {
+                    out.push(v("C12", "removal-lifts-above-even-share", format!("{}: validator {} received {} and holds {}: above the even share {} of {} over {} validators", kind, val, g, held, ceil, total, n)));
                 }
             }
         }
